@@ -11,7 +11,23 @@ OQ = 'skmatter.utils._orthogonalizers'
 i_, j_, r_ = Int('i'), Int('j'), Int('r')
 COLOF = ML.COLOF
 colof_axioms = ML.colof_axioms
-RES = z3.Function('RES', IntS, Mat)                # spec: residual after projecting out the first i (normalised) columns
+RES = z3.Function('RES', IntS, Mat)
+
+def local_axioms():
+    """facts about columns, zero matrices and 1x1 matrices used only here (all hold in the standard model of matrices)"""
+    A, B = z3.Consts('A!o B!o', Mat); c = z3.Real('c!o'); n, m, i = z3.Ints('n!o m!o i!o')
+    Zero = ML.Zero
+    return [ForAll([A, B, i], COLOF(sub(A, B), i) == sub(COLOF(A, i), COLOF(B, i)), patterns=[COLOF(sub(A, B), i)]),
+            ForAll([A, B, i], COLOF(mul(A, B), i) == mul(A, COLOF(B, i)), patterns=[COLOF(mul(A, B), i)]),
+            ForAll([A, B, i], mul(A, COLOF(B, i)) == COLOF(mul(A, B), i), patterns=[mul(A, COLOF(B, i))]),
+            ForAll([c, A, i], COLOF(smul(c, A), i) == smul(c, COLOF(A, i)), patterns=[COLOF(smul(c, A), i)]),
+            ForAll([n, m, i], Implies(And(0 <= i, i < m, n >= 0), COLOF(Zero(n, m), i) == Zero(n, 1)), patterns=[COLOF(Zero(n, m), i)]),
+            ForAll([A, n, m], Implies(And(cols(A) == n, m >= 0), mul(A, Zero(n, m)) == Zero(rows(A), m)), patterns=[mul(A, Zero(n, m))]),
+            ForAll([B, n, m], Implies(And(rows(B) == m, n >= 0), mul(Zero(n, m), B) == Zero(n, cols(B))), patterns=[mul(Zero(n, m), B)]),
+            ForAll([A, n, m], Implies(And(rows(A) == n, cols(A) == m), sub(A, Zero(n, m)) == A), patterns=[sub(A, Zero(n, m))]),
+            ForAll([c, n, m], smul(c, Zero(n, m)) == Zero(n, m), patterns=[smul(c, Zero(n, m))]),
+            ForAll([n, m], Implies(And(n >= 0, m >= 0), T(Zero(n, m)) == Zero(m, n)), patterns=[T(Zero(n, m))]),
+            ForAll([A], Implies(And(rows(A) == 1, cols(A) == 1), A == smul(tr(A), Id(1))), patterns=[tr(A)])]                # spec: residual after projecting out the first i (normalised) columns
 
 def norm_stub(I, a, axis=None, **kw):
     npstubs.used('np.linalg.norm (Frobenius / column norm of an (n,1) matrix)')
@@ -51,7 +67,7 @@ def u_x_orth(copy):
     def body(I):
         n, m, c = I.fresh('n', IntS), I.fresh('m', IntS), I.fresh('c', IntS)
         I.assume(And(n >= 1, m >= 1, 0 <= c, c < m))
-        I.use_axioms('entries', ML.axioms('entries') + colof_axioms()); I.use_axioms('ring', ML.axioms('ring'))
+        I.use_axioms('entries', ML.axioms('entries') + colof_axioms() + local_axioms()); I.use_axioms('ring', ML.axioms('ring'))
         I.cur = dict(n=n, m=m)
         X = ML.fresh_mat(I, 'x1', (n, m)); Xm = ML.mat_of(I, X)
         tol = I.fresh('tol', RealS); I.assume(tol >= 0)
@@ -72,7 +88,9 @@ def u_x_orth(copy):
         # orthogonality: in the normalising branch the selected direction is annihilated: c^T R = 0, and the selected column of R vanishes
         I.assume(big); I.assume(nrm > 0)
         hyp = mul(T(col), col) == smul(nrm * nrm, Id(1))          # ||col||^2 as a 1x1 matrix (definition of the Frobenius norm of a column)
-        I.assume(hyp)
+        h0 = And(rows(mul(T(col), col)) == 1, cols(mul(T(col), col)) == 1, tr(mul(T(col), col)) == nrm * nrm)
+        I.ob('step:trace-of-the-1x1-product-is-the-squared-norm', h0, kind='lemma'); I.assume(h0)
+        I.ob('step:squared-norm-of-the-column-as-a-1x1-product', hyp, kind='lemma'); I.assume(hyp)
         inv = 1 / nrm
         I.assume(And(inv * nrm == 1, inv * (nrm * nrm) == nrm, nrm * inv == 1))      # arithmetic of the reciprocal of a positive number
         g1 = mul(T(col), ch) == smul(nrm, Id(1))
@@ -80,7 +98,128 @@ def u_x_orth(copy):
         g2 = mul(T(col), mul(ch, mul(T(ch), Xm))) == mul(T(col), Xm)
         I.ob('step:projection-onto-the-unit-vector-reproduces-the-component-along-the-column', g2, kind='lemma'); I.assume(g2)
         I.ob('post[C07]:residual-is-orthogonal-to-the-selected-column', mul(T(col), Rm) == ML.Zero(1, m), kind='post')
+        Zn1 = ML.Zero(n, 1)
+        g3 = mul(ch, mul(T(ch), col)) == col
+        I.ob('step:the-column-is-its-own-projection', g3, kind='lemma'); I.assume(g3)
+        I.ob('post[C07]:selected-column-of-the-result-is-zero', COLOF(Rm, c) == Zn1, kind='post')
+        v = I.fresh('v', Mat); I.assume(And(rows(v) == n, cols(v) == 1))
+        # induction step for all earlier selections: a direction orthogonal to the input stays orthogonal to the result
+        I.assume(mul(T(v), Xm) == ML.Zero(1, m))
+        for nm, g in [('orthogonal-direction-annihilates-the-selected-column', mul(T(v), col) == ML.Zero(1, 1)),
+                      ('...and-its-unit-vector', mul(T(v), ch) == ML.Zero(1, 1)),
+                      ('...and-the-projected-part', mul(T(v), mul(ch, mul(T(ch), Xm))) == ML.Zero(1, m))]:
+            I.ob('step:' + nm, g, kind='lemma'); I.assume(g)
+        I.ob('post[C07]:orthogonality-to-any-direction-is-inherited (induction step for all earlier selections)', mul(T(v), Rm) == ML.Zero(1, m), kind='post')
     return Unit(f'X_orthogonalizer[copy={copy}]', body, loops={(q, 0): LoopContract(inv)}, functions=[q])
 
-UNITS = [lambda: u_x_orth(False), lambda: u_x_orth(True)]
+def u_projector_view(copy):
+    """Abstract view of the running residual: X_current = Pi X0 with Pi a symmetric idempotent matrix (orthogonal projector on the complement of the span
+    of the selections).  One real call of X_orthogonalizer (normalising branch) maps the view Pi to Pi - q q^T, keeps it a symmetric projector, and so the
+    residual stays orthogonal to every ORIGINAL selected column whose residual column has become zero."""
+    q = OQ + '.X_orthogonalizer'
+    def inv(I, F, i, g):
+        Xn = ML.mat_of(I, F['xnew'])
+        return [('[C07]running-residual-is-the-recursively-projected-input', Xn == RES(i)),
+                ('[C07]shape-kept', And(rows(Xn) == I.cur['n'], cols(Xn) == I.cur['m']))]
+    def body(I):
+        n, m, c = I.fresh('n', IntS), I.fresh('m', IntS), I.fresh('c', IntS)
+        I.assume(And(n >= 1, m >= 1, 0 <= c, c < m))
+        I.use_axioms('entries', ML.axioms('entries') + colof_axioms() + local_axioms()); I.use_axioms('ring', ML.axioms('ring'))
+        I.cur = dict(n=n, m=m)
+        X0 = I.fresh('X0', Mat); Pi = I.fresh('Pi', Mat)
+        I.assume(And(rows(X0) == n, cols(X0) == m, rows(Pi) == n, cols(Pi) == n, T(Pi) == Pi, mul(Pi, Pi) == Pi))
+        X = ML.fresh_mat(I, 'x1', (n, m)); Xm = ML.mat_of(I, X)
+        I.assume(Xm == mul(Pi, X0))
+        tol = I.fresh('tol', RealS); I.assume(tol >= 0)
+        col = COLOF(Xm, c); nrm = npstubs.SQRT(fro2(col)); ch = smul(1 / nrm, col)
+        I.assume(And(nrm >= tol, nrm > 0))
+        I.assume(RES(0) == Xm); I.assume(RES(1) == sub(Xm, mul(ch, mul(T(ch), Xm))))
+        r = I.call_func(I.repo.get(q), [], dict(x1=X, c=c, tol=tol, copy=copy))
+        Rm = ML.mat_of(I, r)
+        g = Rm == RES(1)
+        I.ob('post[C07]:result-is-the-input-with-the-selected-column-projected-out', g, kind='post'); I.assume(g)
+        inv_ = 1 / nrm
+        I.assume(And(inv_ * nrm == 1, inv_ * (nrm * nrm) == nrm, nrm * inv_ == 1, inv_ * inv_ * (nrm * nrm) == 1))      # arithmetic of the reciprocal of a positive number
+        P2 = sub(Pi, mul(ch, T(ch)))
+        steps = [('trace-of-the-1x1-product-is-the-squared-norm', And(rows(mul(T(col), col)) == 1, cols(mul(T(col), col)) == 1, tr(mul(T(col), col)) == nrm * nrm)),
+                 ('squared-norm-of-the-column-as-a-1x1-product', mul(T(col), col) == smul(nrm * nrm, Id(1))),
+                 ('selected-column-times-its-unit-vector-is-its-norm', mul(T(col), ch) == smul(nrm, Id(1))),
+                 ('transposed-unit-vector', T(ch) == smul(1 / nrm, T(col))),
+                 ('unit-vector-has-unit-norm', mul(T(ch), ch) == Id(1)),
+                 ('selected-residual-column-lies-in-the-range-of-the-projector', mul(Pi, col) == col),
+                 ('...so-does-its-unit-vector', mul(Pi, ch) == ch),
+                 ('...and-transposed', mul(T(ch), Pi) == T(ch)),
+                 ('rank-one-update-is-symmetric', T(mul(ch, T(ch))) == mul(ch, T(ch))),
+                 ('rank-one-update-is-idempotent', mul(mul(ch, T(ch)), mul(ch, T(ch))) == mul(ch, T(ch))),
+                 ('projector-absorbs-the-rank-one-update-left', mul(Pi, mul(ch, T(ch))) == mul(ch, T(ch))),
+                 ('projector-absorbs-the-rank-one-update-right', mul(mul(ch, T(ch)), Pi) == mul(ch, T(ch)))]
+        for nm, f in steps:
+            I.ob('step:' + nm, f, kind='lemma'); I.assume(f)
+        I.ob('post[C07]:view:new-projector-is-symmetric', T(P2) == P2, kind='post')
+        I.ob('post[C07]:view:new-projector-is-idempotent', mul(P2, P2) == P2, kind='post')
+        I.ob('post[C07]:view:result-is-the-new-projector-applied-to-the-original-input', Rm == mul(P2, X0), kind='post')
+        # consequence for ANY symmetric projector view: a selected item whose residual column is zero is orthogonal (as an original column) to the residual
+        j = I.fresh('j', IntS); I.assume(And(0 <= j, j < m))
+        Pv = I.fresh('Pv', Mat); Rv = I.fresh('Rv', Mat)
+        I.assume(And(rows(Pv) == n, cols(Pv) == n, T(Pv) == Pv, Rv == mul(Pv, X0), COLOF(Rv, j) == ML.Zero(n, 1)))
+        for nm, f in [('zero-residual-column-as-projected-original-column', mul(Pv, COLOF(X0, j)) == ML.Zero(n, 1)),
+                      ('...transposed', mul(T(COLOF(X0, j)), Pv) == ML.Zero(1, n))]:
+            I.ob('step:' + nm, f, kind='lemma'); I.assume(f)
+        I.ob('post[C07]:view:residual-is-orthogonal-to-every-original-selected-column', mul(T(COLOF(X0, j)), Rv) == ML.Zero(1, m), kind='post')
+    return Unit(f'X_orthogonalizer[copy={copy}].projector-view', body, loops={(q, 0): LoopContract(inv)}, functions=[q])
+
+def gram_pinv_axioms():
+    """Moore-Penrose facts for the Gram matrix G = A^T A (range(A^T) = range(G)): A G^+ G = A and G G^+ A^T = A^T"""
+    A = z3.Const('A!g', Mat)
+    G = mul(T(A), A)
+    return [ForAll([A], mul(A, mul(ML.pinv(G), G)) == A, patterns=[ML.pinv(G)]),
+            ForAll([A], mul(G, mul(ML.pinv(G), T(A))) == T(A), patterns=[ML.pinv(G)]),
+            # normal equations of the minimum-norm least-squares solution W = A^+ B:  A^T A A^+ = A^T
+            ForAll([A], mul(mul(T(A), A), ML.pinv(A)) == T(A), patterns=[ML.pinv(A)])]
+
+def u_y_feature(copy):
+    q = OQ + '.Y_feature_orthogonalizer'
+    def body(I):
+        n, m, p = I.fresh('n', IntS), I.fresh('m', IntS), I.fresh('p', IntS)
+        I.assume(And(n >= 1, m >= 1, p >= 1))
+        I.use_axioms('entries', ML.axioms('entries') + P.pinv_axioms() + local_axioms()); I.use_axioms('ring', ML.axioms('ring') + gram_pinv_axioms())
+        X = ML.fresh_mat(I, 'X', (n, m)); Xm = ML.mat_of(I, X)
+        Y = ML.fresh_mat(I, 'y', (n, p)); Ym = ML.mat_of(I, Y)
+        tol = I.fresh('tol', RealS); I.assume(tol >= 0)
+        r = I.call_func(I.repo.get(q), [], dict(y=Y, X=X, tol=tol, copy=copy))
+        Rm = ML.mat_of(I, r)
+        G = mul(T(Xm), Xm)
+        fit = mul(Xm, mul(ML.pinv(G), mul(T(Xm), Ym)))
+        I.ob('post[C07]:result-is-y-minus-its-least-squares-fit-on-the-given-columns', Rm == sub(Ym, fit), kind='post')
+        I.ob('post[C07]:copy-flag:' + ('y-left-untouched-and-a-new-array-returned' if copy else 'y-modified-in-place-and-returned'),
+             BoolVal((r.id != Y.id and ML.mat_of(I, Y).eq(Ym)) if copy else (r.id == Y.id)), kind='post')
+        I.ob('post[C07]:X-left-untouched', BoolVal(ML.mat_of(I, X).eq(Xm)), kind='post')
+        g1 = mul(T(Xm), fit) == mul(T(Xm), Ym)
+        I.ob('step:normal-equations-of-the-fit', g1, kind='lemma'); I.assume(g1)
+        I.ob('post[C07]:unexplained-y-is-orthogonal-to-the-given-columns', mul(T(Xm), Rm) == ML.Zero(m, p), kind='post')
+    return Unit(f'Y_feature_orthogonalizer[copy={copy}]', body, functions=[q])
+
+def u_y_sample(copy):
+    q = OQ + '.Y_sample_orthogonalizer'
+    def body(I):
+        n, m, p, nr = I.fresh('n', IntS), I.fresh('m', IntS), I.fresh('p', IntS), I.fresh('nr', IntS)
+        I.assume(And(n >= 1, m >= 1, p >= 1, nr >= 1))
+        I.use_axioms('entries', ML.axioms('entries') + P.pinv_axioms() + local_axioms()); I.use_axioms('ring', ML.axioms('ring') + gram_pinv_axioms())
+        X = ML.fresh_mat(I, 'X', (n, m)); Xm = ML.mat_of(I, X)
+        Y = ML.fresh_mat(I, 'y', (n, p)); Ym = ML.mat_of(I, Y)
+        Xr = ML.fresh_mat(I, 'X_ref', (nr, m)); Xrm = ML.mat_of(I, Xr)
+        Yr = ML.fresh_mat(I, 'y_ref', (nr, p)); Yrm = ML.mat_of(I, Yr)
+        tol = I.fresh('tol', RealS); I.assume(tol >= 0)
+        r = I.call_func(I.repo.get(q), [], dict(y=Y, X=X, y_ref=Yr, X_ref=Xr, tol=tol, copy=copy))
+        Rm = ML.mat_of(I, r)
+        W = mul(ML.pinv(Xrm), Yrm)                                   # least-squares model fitted on the reference (selected) samples only
+        I.ob('post[C07]:result-is-y-minus-the-prediction-of-the-model-fitted-on-the-reference-samples', Rm == sub(Ym, mul(Xm, W)), kind='post')
+        I.ob('post[C07]:copy-flag:' + ('y-left-untouched-and-a-new-array-returned' if copy else 'y-modified-in-place-and-returned'),
+             BoolVal((r.id != Y.id and ML.mat_of(I, Y).eq(Ym)) if copy else (r.id == Y.id)), kind='post')
+        I.ob('post[C07]:other-arguments-left-untouched', BoolVal(all(ML.mat_of(I, a).eq(b) for a, b in ((X, Xm), (Xr, Xrm), (Yr, Yrm)))), kind='post')
+        # the model is a least-squares solution on the reference samples: normal equations X_r^T (Y_r - X_r W) = 0
+        I.ob('post[C07]:model-satisfies-the-normal-equations-on-the-reference-samples', mul(T(Xrm), sub(Yrm, mul(Xrm, W))) == ML.Zero(m, p), kind='post')
+    return Unit(f'Y_sample_orthogonalizer[copy={copy}]', body, functions=[q])
+
+UNITS = [lambda: u_x_orth(False), lambda: u_x_orth(True), lambda: u_projector_view(False), lambda: u_y_feature(False), lambda: u_y_feature(True), lambda: u_y_sample(False), lambda: u_y_sample(True)]
 RT = False
